@@ -21,6 +21,8 @@ pub enum Source {
     FamPresented(Family),
     /// ring ADFs R(n): members first + step*k (see mid.rs); sorting and fact order cycle with k
     Ring(usize, u64, u64),
+    /// SP: large sparse ADFs (70 / 130 / 270 statements, 7 open ones at the highest positions), `count` instances
+    Sparse(u64, u64),
 }
 
 /// labels that are not declared in sorted order under either sorting (b10 < b9 byte-wise, 9 < 10 naturally)
@@ -57,6 +59,7 @@ impl Source {
             Source::FamAllWriters(f) => format!("{} x all writer tuples", f.name),
             Source::Formulas(n, _) => n.clone(),
             Source::FamPresented(f) => format!("{} presented with permuted ac facts, reordering labels and sortings", f.name),
+            Source::Sparse(_, count) => format!("SP: {} large sparse ADFs (70/130/270 statements, open ring at positions beyond 63 / 255)", count),
             Source::Ring(n, first, step) => {
                 if *step == 1 {
                     format!("R({}): all ring ADFs with {} statements", n, n)
@@ -71,6 +74,7 @@ impl Source {
             Source::Fam(f) | Source::FamAllWriters(f) | Source::FamCompact(f) | Source::FamPresented(f) => f.n,
             Source::Formulas(..) => 2,
             Source::Ring(n, _, _) => *n,
+            Source::Sparse(..) => 270,
         }
     }
     pub fn size(&self) -> u64 {
@@ -78,6 +82,7 @@ impl Source {
             Source::Fam(f) | Source::FamCompact(f) | Source::FamPresented(f) => f.size(),
             Source::FamAllWriters(f) => f.size() * (WRITERS as u64).pow(f.n as u32),
             Source::Formulas(_, l) => l.len() as u64,
+            Source::Sparse(_, count) => *count,
             Source::Ring(n, first, step) => {
                 let raw = crate::mid::ring_size(*n);
                 if *first >= raw {
@@ -137,6 +142,12 @@ impl Source {
                 }
                 Case { tts, text, fms, sorting: (k % 3) as usize, labels, formulas: None }
             }
+            Source::Sparse(first, _) => {
+                let idx = first + k;
+                let l = crate::mid::sparse(idx);
+                let text = l.text(None, ("\n", "", ""));
+                Case { tts: vec![], text, fms: l.conds.clone(), sorting: ((idx / 2) % 3) as usize, labels: l.labels.clone(), formulas: Some(std::sync::Arc::new(l)) }
+            }
             Source::Ring(n, first, step) => {
                 let idx = first + step * k;
                 let l = crate::mid::ring(*n, idx);
@@ -162,6 +173,9 @@ impl Source {
         let mut v = json!({"type": "adf", "source": self.name(), "index": k, "tts": c.tts, "text": c.text, "sorting": c.sorting, "labels": c.labels});
         if let Source::Ring(n, first, step) = self {
             v["ring"] = json!({"n": n, "index": first + step * k});
+        }
+        if let Source::Sparse(first, _) = self {
+            v["sparse"] = json!(first + k);
         }
         v
     }
@@ -202,7 +216,9 @@ pub fn standard_sources(run: &Run, with_formulas: bool) -> Vec<Source> {
         v.push(Source::Ring(6, run.seed % 16, 16));
         v.push(Source::Ring(7, run.seed % 512, 512));
         v.push(Source::Ring(8, run.seed % 16384, 16384));
+        v.push(Source::Sparse(run.seed * 1000, 96));
     } else {
+        v.push(Source::Sparse(run.seed * 1000, 960));
         v.push(Source::Ring(6, 0, 1));
         v.push(Source::Ring(7, run.seed % 16, 16));
         v.push(Source::Ring(8, run.seed % 512, 512));
